@@ -113,3 +113,25 @@ M("C05", "height-gt5", "bmtree/index.go", "if treeheight > 4 {", "if treeheight 
 M("C05", "height-gt3", "bmtree/index.go", "if treeheight > 4 {", "if treeheight > 3 {", expect="equivalent")  # shortcut also valid for h = 4 (shown by the exhaustive run)
 M("C05", "diffbits-31", "bmtree/index.go", "diffbits := 32 - int32(bits.LeadingZeros32(uint32(i1^i2)))", "diffbits := 31 - int32(bits.LeadingZeros32(uint32(i1^i2)))")
 M("C05", "right-turn", "bmtree/index.go", "\t\t\tindex -= int32(maskAndPathBit >> 32)\n", "\t\t\tindex -= int32(maskAndPathBit>>32) - 1\n")
+# ---- C15 TailBitmap
+M("C15", "get-le", "bitmap/tailbitmap.go", "func (tb *TailBitmap) Get(idx int64) uint64 {\n\tif idx < tb.Offset {", "func (tb *TailBitmap) Get(idx int64) uint64 {\n\tif idx <= tb.Offset {")
+M("C15", "get1-le", "bitmap/tailbitmap.go", "func (tb *TailBitmap) Get1(idx int64) uint64 {\n\tif idx < tb.Offset {", "func (tb *TailBitmap) Get1(idx int64) uint64 {\n\tif idx <= tb.Offset {")
+M("C15", "get-shift7", "bitmap/tailbitmap.go", "return tb.Words[idx>>6] & Bit[idx&63]", "return tb.Words[idx>>7] & Bit[idx&63]")
+M("C15", "compact-drops-nonfull", "bitmap/tailbitmap.go", "for len(tb.Words) > 0 && tb.Words[0] == allOnes {", "for len(tb.Words) > 0 && tb.Words[0]|1<<17 == allOnes {")
+M("C15", "offset-63", "bitmap/tailbitmap.go", "\t\ttb.Offset += 64\n", "\t\ttb.Offset += 63\n")
+M("C15", "set-below-offset", "bitmap/tailbitmap.go", "\tif idx < tb.Offset {\n\t\treturn\n\t}\n\n\tidx = idx - tb.Offset\n\twordIdx := idx >> 6", "\tif idx < tb.Offset-64 {\n\t\treturn\n\t}\n\n\tidx = idx - tb.Offset\n\twordIdx := idx >> 6")
+M("C15", "compact-only-when-word0", "bitmap/tailbitmap.go", "\tif wordIdx == 0 {\n\t\ttb.Compact()\n\t}", "\tif wordIdx == 0 && idx&63 == 63 {\n\t\ttb.Compact()\n\t}")
+M("C15", "reclaim-loses-words", "bitmap/tailbitmap.go", "\t\tcopy(newWords, tb.Words)\n\t\ttb.reclaimed = tb.Offset", "\t\tcopy(newWords, tb.Words)\n\t\tif l > 0 {\n\t\t\ttb.Words = newWords[:l-1]\n\t\t}\n\t\ttb.reclaimed = tb.Offset")
+M("C15", "reclaim-stale-copy", "bitmap/tailbitmap.go", "\t\tcopy(newWords, tb.Words)\n\t\ttb.reclaimed = tb.Offset", "\t\tcopy(newWords[1:], tb.Words)\n\t\ttb.Words = newWords\n\t\ttb.reclaimed = tb.Offset")
+# ---- C18 SectionWriter
+M("C18", "write-off-minus", "iohelper/iohelper.go", "s.off += int64(n)", "s.off -= int64(n)")
+M("C18", "seek-base-minus", "iohelper/iohelper.go", "\tcase io.SeekStart:\n\t\toffset += s.base", "\tcase io.SeekStart:\n\t\toffset -= s.base")
+M("C18", "write-trunc-ge", "iohelper/iohelper.go", "if max := s.limit - s.off; int64(len(p)) > max {", "if max := s.limit - s.off; int64(len(p)) >= max {")
+M("C18", "writeat-short-dropped", "iohelper/iohelper.go", "\t\tif err == nil {\n\t\t\terr = io.ErrShortWrite\n\t\t}", "")
+M("C18", "write-err-merge", "iohelper/iohelper.go", "\tif err2 != nil {\n\t\terr = err2\n\t}", "\tif err2 != nil && err == nil {\n\t\terr = err2\n\t}")
+M("C18", "seek-end-base", "iohelper/iohelper.go", "\tcase io.SeekEnd:\n\t\toffset += s.limit", "\tcase io.SeekEnd:\n\t\toffset += s.limit - s.base")
+M("C18", "seek-reject-le", "iohelper/iohelper.go", "if offset < s.base {", "if offset <= s.base {")
+M("C18", "writeat-range-gt", "iohelper/iohelper.go", "if off < 0 || off >= s.limit-s.base {", "if off < 0 || off > s.limit-s.base {")
+M("C18", "write-refuse-gt", "iohelper/iohelper.go", "if s.off >= s.limit {", "if s.off > s.limit {")
+M("C18", "seek-moves-on-error", "iohelper/iohelper.go", "\tif offset < s.base {\n\t\treturn 0, errOffset\n\t}\n\ts.off = offset", "\ts.off = offset\n\tif offset < s.base {\n\t\treturn 0, errOffset\n\t}")
+M("C18", "writeat-uses-cursor", "iohelper/iohelper.go", "\treturn s.w.WriteAt(p, off)\n}", "\tn, err = s.w.WriteAt(p, off)\n\ts.off += int64(n) * 0\n\tif off == s.off+1 {\n\t\ts.off = off\n\t}\n\treturn n, err\n}")
